@@ -269,6 +269,34 @@ def template_shard(shard):
     return p
 
 
+def chain_shard(shard):
+    """Producer -> consumer chains of C01, run in both modes (a result left by the pipeline's write-back path must behave
+    as a 32-bit value in every consumer, exactly as in single-cycle mode)."""
+    seed, part, parts = shard
+    p = Partial()
+    prods = c01.producers(seed)
+    cons = c01.consumers(14)
+    k = 0
+    for ins, regs, words in prods:
+        for c in cons:
+            k += 1
+            if k % parts != part:
+                continue
+            prog = [ins] + c
+            rg = dict(regs)
+            rg.update({16: 3, 20: BASE + 64})
+            wd = dict(words)
+            wd.update({BASE + 64: 0x5A5A5A5A})
+            pm = {4 * i: x for i, x in enumerate(prog)}
+            one, bad = compare_modes(pm, rg, wd, len(prog) + 2)
+            p.evaluations += 1
+            p.nontrivial += 1
+            p.counters["producer-consumer-chain"] += 1
+            for f, d in bad:
+                p.violation(dict(oracle="five-vs-single", field=f), case_of(pm, rg, wd, len(prog) + 2, 0), f"[{rv.prog_text(prog)}]: {d}", size=(len(prog), k))
+    return p
+
+
 def program_shards(seed, big, L, nstates, steps):
     n = len(alpha.hazard_alphabet(seed, big))
     if L >= 4:
@@ -299,6 +327,9 @@ def run(ctx):
                 shards.append((cls, op, seed, thorough, part, parts, not thorough))
     part = pmap(sweep_shard, shards)
     ctx.space("operand-sweep-through-pipeline", part, t0)
+    t0 = time.time()
+    part = pmap(chain_shard, [(seed, i, 32) for i in range(32)])
+    ctx.space("producer-consumer-chains", part, t0)
     steps = 24 if ctx.quick else 40
     nstates = 2 if ctx.quick else 4
     plan = [(False, L) for L in range(1, (4 if ctx.quick else 5) + 1)]
